@@ -233,7 +233,7 @@ PROPS = {
         "rule": MATCH_RULE,
     },
     "C02": {
-        "modules": ["Sheens.Props.C02"],
+        "modules": ["Sheens.Props.C02", "Sheens.Props.C02Exact"],
         "theorems": [],
         "facts": ["matcher_switches", "name_conventions"],
         "runs": {
